@@ -269,10 +269,13 @@ Definition anchor_present (sites : list site) (a : string * string * string * Z)
                     String.eqb what (s_detail s) && (h =? s_hash s)) sites.
 
 (* zones outside block processing in which order-sensitive constructs are accepted unreviewed.
+   generated-proto-msginfo: only KGlobal sites get this zone, and only the variables
+   `xxx_messageInfo_<Msg> proto.InternalMessageInfo` of *.pb.go files (the gogoproto runtime's lazily
+   built marshal table of one message type: a function of the message type alone).
    Generated protobuf code (generated-proto) is deliberately NOT in this list: a map range in a
    Marshal method would be consensus relevant. *)
 Definition accepted_zones : list string :=
-  ["generated-gateway"; "simulation"; "cli"; "testutil"; "docs"; "cmd"]%string.
+  ["generated-gateway"; "generated-proto-msginfo"; "simulation"; "cli"; "testutil"; "docs"; "cmd"]%string.
 
 Definition str_mem (x : string) (l : list string) : bool := existsb (String.eqb x) l.
 
